@@ -2,7 +2,7 @@
 import warnings
 from hypothesis import strategies as st
 
-from amaranth.hdl import Module, ClockDomain, Signal, Cat, Shape, ResetSignal
+from amaranth.hdl import Module, ClockDomain, Signal, Cat, Shape, ResetSignal, Fragment
 from amaranth.lib.cdc import FFSynchronizer, AsyncFFSynchronizer, ResetSynchronizer, PulseSynchronizer
 from amaranth.sim import Simulator
 
@@ -14,7 +14,8 @@ LEVEL = "exploration"
 RULE = ("The harness owns every clock (ctx.set on the clock signals; coincident edges through one ctx.set on "
         "Cat(clocks)), so every interleaving is a generated event list. ff: FFSynchronizer with width 0..8 "
         "(signed/unsigned), stages 2..5, explicit/default init, input signal with its own non-zero init, reset_less "
-        "on/off, pos/neg-edge output domain with or without a reset; events = input change, output-clock rising / "
+        "on/off, pos/neg-edge output domain with or without a reset, output of the same shape or a wider / signed one, the "
+        "objects elaborated once or twice before simulation; events = input change, output-clock rising / "
         "falling edge, edge of an unrelated domain, coincident edges, domain reset change; oracle = shift register of "
         "`stages` entries preloaded with init (output = value the input had at the stages-th previous active edge). "
         "async: AsyncFFSynchronizer / ResetSynchronizer, stages 2..5, both async edges; events = input level change "
@@ -30,6 +31,9 @@ ASSUMPTIONS = [
     "Inputs and resets change only between clock events, never in the same instant as an edge.",
     "Output domains of the asynchronous synchronisers are rising-edge (the library requires it).",
     "FFSynchronizer output domain resets are synchronous.",
+    "Where the FFSynchronizer output is given a different shape from the input it is one that holds every value of "
+    "the input, and the delayed value is compared numerically (the documentation only describes equal widths).",
+    "Elaborating the same synchroniser object a second time (conversion followed by simulation) yields the same hardware.",
 ]
 QUICK_SHARDS = 4
 THOROUGH_SHARDS = 16
@@ -95,7 +99,12 @@ def ff_cases(draw, nev):
            "init": draw_val(draw, w, s) if draw(BOOL) else None,
            "i_init": draw_val(draw, w, s) if draw(BOOL) else 0,
            "reset_less": draw(BOOL), "edge": "neg" if draw(INT(0, 3)) == 0 else "pos",
-           "domain_reset_less": draw(INT(0, 3)) == 0, "o_domain": PICK(draw, ["sync", "out"])}
+           "domain_reset_less": draw(INT(0, 3)) == 0, "o_domain": PICK(draw, ["sync", "out"]),
+           "elaborations": 2 if draw(INT(0, 4)) == 0 else 1}
+    # an output that can hold every value of the input (wider, or signed and wider for an unsigned input)
+    cfg["o_shape"] = [w, s]
+    if draw(INT(0, 3)) == 0:
+        cfg["o_shape"] = [w + draw(INT(1, 3)), s or draw(BOOL)]
 
     def extra(d):
         if d(INT(0, 4)) == 0:
@@ -115,13 +124,16 @@ def ff_body(ctx, case):
         xcd = ClockDomain("other")
         m.domains += [ocd, xcd]
         i = Signal(Shape(w, s), init=case["i_init"], name="i")
-        o = Signal(Shape(w, s), name="o")
+        ow, os_ = case.get("o_shape", [w, s])
+        o = Signal(Shape(ow, os_), name="o")
         kw = {}
         if case["init"] is not None:
             kw["init"] = case["init"]
         m.submodules.dut = FFSynchronizer(i, o, o_domain=on, stages=stages, reset_less=case["reset_less"], **kw)
         dummy = Signal(4)
         m.d.other += dummy.eq(dummy + 1)
+        for _ in range(case.get("elaborations", 1) - 1):
+            Fragment.get(m, None)             # the same objects have been elaborated before
         sim = Simulator(m)
     init = case["init"] if case["init"] is not None else 0
     chain = [init] * stages           # chain[0] = first flop
@@ -178,6 +190,11 @@ def ff_body(ctx, case):
     if case["init"] is None and case["i_init"]: keys.append("ff:default-init-with-nonzero-input-init")
     if not case["reset_less"] and not case["domain_reset_less"]: keys.append("ff:resettable")
     if w == 0: keys.append("ff:width0")
+    if case.get("o_shape", [w, s]) != [w, s]:
+        keys.append("ff:output-wider-than-input")
+        if s and (min([case["i_init"], init] + [e[1] for e in case["events"] if e[0] == "in"]) < 0):
+            keys.append("ff:negative-value-into-wider-output")
+    if case.get("elaborations", 1) > 1: keys.append("ff:elaborated-before")
     ctx.note(case, st_["coincident"] and st_["o_changed"] and (st_["in_burst"] or st_["o_burst"]), *keys,
              evals=len(case["events"]))
 
@@ -187,7 +204,7 @@ def ff_body(ctx, case):
 def async_cases(draw, nev):
     cfg = {"kind": PICK(draw, ["AsyncFFSynchronizer", "AsyncFFSynchronizer", "ResetSynchronizer"]),
            "stages": draw(INT(2, 5)), "async_edge": PICK(draw, ["pos", "neg"]), "o_domain": PICK(draw, ["sync", "out"]),
-           "i_init": draw(INT(0, 1))}
+           "i_init": draw(INT(0, 1)), "elaborations": 2 if draw(INT(0, 2)) == 0 else 1}
     if cfg["kind"] == "ResetSynchronizer":
         cfg["async_edge"] = "pos"
 
@@ -215,6 +232,8 @@ def async_body(ctx, case):
             m.submodules.dut = ResetSynchronizer(i, domain=on, stages=stages)
         dummy = Signal(4)
         m.d.other += dummy.eq(dummy + 1)
+        for _ in range(case.get("elaborations", 1) - 1):
+            Fragment.get(m, None)
         sim = Simulator(m)
     cds = {"o": ocd, "x": xcd}
     asserted_level = 1 if case["async_edge"] == "pos" else 0
@@ -261,6 +280,7 @@ def async_body(ctx, case):
         raise fail[0]
     keys = ["async:" + k for k, v in st_.items() if v] + ["async:" + case["kind"], f"async:stages{stages}",
                                                          "async:edge-" + case["async_edge"]]
+    if case.get("elaborations", 1) > 1: keys.append("async:elaborated-before-edge-" + case["async_edge"])
     ctx.note(case, st_["released"] and st_["coincident"], *keys, evals=len(case["events"]))
 
 
@@ -289,7 +309,7 @@ def pulse_cases(draw, nev):
             i = 1 if want else 0
             pending = bool(i)                  # the coincident O-edge sampled the older pulse, not this one
         evs.append([kind, i])
-    return {"stages": stages, "same": same, "events": evs}
+    return {"stages": stages, "same": same, "events": evs, "elaborations": 2 if draw(INT(0, 4)) == 0 else 1}
 
 
 def pulse_body(ctx, case):
@@ -306,6 +326,8 @@ def pulse_body(ctx, case):
             m.domains += [icd, ocd]
             dut = PulseSynchronizer("inp", "outp", stages=stages)
         m.submodules.dut = dut
+        for _ in range(case.get("elaborations", 1) - 1):
+            Fragment.get(m, None)
         sim = Simulator(m)
     fail = []
     st_ = dict(coincident=False, i_burst=False, o_burst=False, back_to_back=False)
@@ -386,4 +408,5 @@ REQUIRED = ["ff:coincident", "ff:o_changed", "ff:in_burst", "ff:o_burst", "ff:re
             "async:coincident", "async:released", "async:reasserted_mid_release", "async:ResetSynchronizer",
             "async:AsyncFFSynchronizer", "async:edge-neg", "async:stages5", "async:assert_between_edges",
             "pulse:coincident", "pulse:i_burst", "pulse:o_burst", "pulse:back_to_back", "pulse:same-domain",
-            "pulse:several-pulses", "pulse:stages4"]
+            "pulse:several-pulses", "pulse:stages4", "ff:output-wider-than-input", "ff:negative-value-into-wider-output",
+            "ff:elaborated-before", "async:elaborated-before-edge-neg", "async:elaborated-before-edge-pos"]
